@@ -178,11 +178,14 @@ def source_check(ctx, doc, path, store, dump):
 
     vcf = cyvcf2.VCF(path)
     fmt_fields = [f for f in store.metadata.format_fields if f.vcf_type in ("Integer", "Float") and f.name not in ("GT", "LAA", "LPL")]
-    src = {"FORMAT/GT": [], "POS": []}
+    src = {"FORMAT/GT": [], "POS": [], "rlen": []}
     for f in fmt_fields:
         src[f.full_name] = []
     for v in vcf:
         src["POS"].append(canon(np.array([v.POS])))
+        # the record's length on the reference: INFO/END - POS + 1 when END is given (symbolic alleles, reference blocks), else len(REF)
+        end_ = v.INFO.get("END") if "END" in [h["ID"] for h in vcf.header_iter() if h["HeaderType"] == "INFO"] else None
+        src["rlen"].append(canon(np.array([(end_ - v.POS + 1) if end_ is not None else len(v.REF)])))
         if "FORMAT/GT" in store.fields:
             src["FORMAT/GT"].append(canon(norm_gt(v.genotype.array())) if "GT" in v.FORMAT else [])
         for f in fmt_fields:
@@ -463,8 +466,53 @@ def part_local_alleles(ctx):
         shutil.rmtree(d, ignore_errors=True)
 
 
+def part_end_records(ctx):
+    """records whose extent comes from INFO/END (symbolic alleles, gVCF reference blocks) next to ordinary ones: every fixed
+    column against the source, in particular rlen"""
+    from bio2zarr import vcf2zarr
+    from bio2zarr.vcf2zarr import icf as icf_mod
+
+    r = ctx.rnd
+    d = os.path.join(ctx.work, "c08end")
+    os.makedirs(d)
+    hdr = ['##contig=<ID=chr1,length=10000000>', '##FILTER=<ID=PASS,Description="p">', '##INFO=<ID=END,Number=1,Type=Integer,Description="e">',
+           '##ALT=<ID=DEL,Description="d">', '##ALT=<ID=NON_REF,Description="n">', '##FORMAT=<ID=GT,Number=1,Type=String,Description="g">']
+    try:
+        for i in range(ctx.n(2, 10)):
+            recs, pos = [], 100
+            for _ in range(r.randint(4, 12)):
+                kind = r.choice(["snp", "indel", "del", "block"])
+                if kind == "snp":
+                    recs.append(f"chr1\t{pos}\t.\tA\tC\t.\tPASS\t.\tGT\t0/1\t1|1")
+                elif kind == "indel":
+                    recs.append(f"chr1\t{pos}\t.\t{'A' + 'CG' * r.randint(1, 4)}\tA\t.\tPASS\t.\tGT\t0/1\t0/0")
+                elif kind == "del":
+                    recs.append(f"chr1\t{pos}\t.\tA\t<DEL>\t.\tPASS\tEND={pos + r.randint(1, 5000)}\tGT\t0/1\t./.")
+                else:
+                    recs.append(f"chr1\t{pos}\t.\tA\t<NON_REF>\t.\tPASS\tEND={pos + r.randint(0, 300)}\tGT\t0/0\t0/0")
+                pos += r.randint(1, 400)
+            p = vcfgen.make_indexed(d, f"e{i}", vcfgen.vcf_text(hdr, recs, ["s0", "s1"]), kind=r.choice(["tbi", "csi"]))
+            out = os.path.join(d, "e.icf")
+            shutil.rmtree(out, ignore_errors=True)
+            doc = dict(part="e2e", special="records with INFO/END", records=[x.split("\t")[1] + ":" + x.split("\t")[4] + ":" + x.split("\t")[7] for x in recs][:8])
+            ctx.case(doc, nontrivial=True)
+            ctx.count("e2e-end-records")
+            try:
+                vcf2zarr.explode(out, [p], worker_processes=0, column_chunk_size=r.choice([16, 1e-5]))
+                st = icf_mod.IntermediateColumnarFormat(out)
+                dump = field_dump(st)
+            except Exception as e:  # noqa: BLE001
+                ctx.fail(doc, dict(error=f"{type(e).__name__}: {e}"[:300]), "exploding a file with INFO/END records raised")
+                continue
+            source_check(ctx, doc, p, st, dump)
+            summary_check(ctx, doc, st)
+    finally:
+        shutil.rmtree(d, ignore_errors=True)
+
+
 def run(ctx):
     part_a(ctx)
+    part_end_records(ctx)
     part_local_alleles(ctx)
     part_b(ctx)
 
